@@ -7,62 +7,62 @@ namespace Juno.C06
 
 /-! ### the acceptor, step by step -/
 
-theorem Spec.run_append (s : Spec) (xs ys : List SEv) :
-    Spec.run s (xs ++ ys) = (match Spec.run s xs with
+theorem Spec.run_append (strict : Bool) (s : Spec) (xs ys : List SEv) :
+    Spec.run strict s (xs ++ ys) = (match Spec.run strict s xs with
       | .error r => .error r
-      | .ok s' => Spec.run s' ys) := by
+      | .ok s' => Spec.run strict s' ys) := by
   induction xs generalizing s with
   | nil => rfl
   | cons x xs ih =>
     simp only [List.cons_append, Spec.run]
-    cases Spec.step s x with
+    cases Spec.step strict s x with
     | error r => rfl
     | ok s' => exact ih s'
 
-theorem Spec.step_stored_head (s : Spec) (req : Nat) (b : Blk) (rest : List (Nat × Blk))
+theorem Spec.step_stored_head (strict : Bool) (s : Spec) (req : Nat) (b : Blk) (rest : List (Nat × Blk))
     (hev : s.ev.blocks = (req, b) :: rest) (hok : b.ok = true) (hs : succession s.chain b = .stored) :
-    Spec.step s (.obs (.stored b.num b.hash)) =
+    Spec.step strict s (.obs (.stored b.num b.hash)) =
       .ok { s with chain := b :: s.chain, pending := [],
                    owed := s.owed ++ reorgObs (rangeOf s.pending) ++ [Obs.newHead b.num b.hash] } := by
   simp [Spec.step, hev, hok, hs]
 
-theorem Spec.step_newHead (s : Spec) (n h : Nat) (rest : List Obs)
+theorem Spec.step_newHead (strict : Bool) (s : Spec) (n h : Nat) (rest : List Obs)
     (ho : s.owed = Obs.newHead n h :: rest) :
-    Spec.step s (.obs (.newHead n h)) = .ok { s with owed := rest } := by
+    Spec.step strict s (.obs (.newHead n h)) = .ok { s with owed := rest } := by
   simp [Spec.step, ho]
 
-theorem Spec.step_reorg (s : Spec) (r : Range) (rest : List Obs)
+theorem Spec.step_reorg (strict : Bool) (s : Spec) (r : Range) (rest : List Obs)
     (ho : s.owed = Obs.reorg r :: rest) :
-    Spec.step s (.obs (.reorg r)) = .ok { s with owed := rest } := by
+    Spec.step strict s (.obs (.reorg r)) = .ok { s with owed := rest } := by
   simp [Spec.step, ho]
 
-theorem Spec.step_reverted (s : Spec) (hd : Blk) (tl : Chain) (hc : s.chain = hd :: tl)
-    (hj : justified s.ev s.chain hd = true) :
-    Spec.step s (.obs (.reverted hd.num hd.hash)) =
+theorem Spec.step_reverted (strict : Bool) (s : Spec) (hd : Blk) (tl : Chain) (hc : s.chain = hd :: tl)
+    (hj : justified strict s.ev s.chain hd = true) :
+    Spec.step strict s (.obs (.reverted hd.num hd.hash)) =
       .ok { s with chain := tl, pending := hd :: s.pending } := by
-  have hj' : justified s.ev (hd :: tl) hd = true := hc ▸ hj
+  have hj' : justified strict s.ev (hd :: tl) hd = true := hc ▸ hj
   simp [Spec.step, hc, hj']
 
 /-! ### evidence only grows -/
 
-theorem justified_mono_blocks (ev : Evidence) (x : Nat × Blk) (c : Chain) (hd : Blk)
-    (h : justified ev c hd = true) :
-    justified { ev with blocks := x :: ev.blocks } c hd = true := by
+theorem justified_mono_blocks (strict : Bool) (ev : Evidence) (x : Nat × Blk) (c : Chain) (hd : Blk)
+    (h : justified strict ev c hd = true) :
+    justified strict { ev with blocks := x :: ev.blocks } c hd = true := by
   unfold justified at *
-  simp only [List.any_cons, Bool.or_eq_true] at *
-  rcases h with (h | h) | h
+  simp only [List.any_cons, Bool.or_eq_true, Bool.and_eq_true] at *
+  rcases h with (h | ⟨hs, h⟩) | h
   · exact Or.inl (Or.inl (Or.inr h))
-  · exact Or.inl (Or.inr (Or.inr h))
+  · exact Or.inl (Or.inr ⟨hs, Or.inr h⟩)
   · exact Or.inr h
 
-theorem justified_mono_latests (ev : Evidence) (x : Hdr) (c : Chain) (hd : Blk)
-    (h : justified ev c hd = true) :
-    justified { ev with latests := x :: ev.latests } c hd = true := by
+theorem justified_mono_latests (strict : Bool) (ev : Evidence) (x : Hdr) (c : Chain) (hd : Blk)
+    (h : justified strict ev c hd = true) :
+    justified strict { ev with latests := x :: ev.latests } c hd = true := by
   unfold justified at *
-  simp only [List.any_cons, Bool.or_eq_true] at *
-  rcases h with (h | h) | h
+  simp only [List.any_cons, Bool.or_eq_true, Bool.and_eq_true] at *
+  rcases h with (h | ⟨hs, h⟩) | h
   · exact Or.inl (Or.inl h)
-  · exact Or.inl (Or.inr h)
+  · exact Or.inl (Or.inr ⟨hs, h⟩)
   · exact Or.inr (Or.inr h)
 
 /-! ### what a run of the machine emits -/
@@ -105,18 +105,18 @@ def Impl.runOK (cfg : Cfg) (s : Impl) : List Ev → Prop
   | e :: es => s.evOK cfg e ∧ Impl.runOK cfg (s.step cfg e).1 es
 
 /-- While `revertTask(lpv)` runs, every block above `lpv` that is still on the chain is justified. -/
-def TaskInv (i : Impl) : Prop :=
+def TaskInv (strict : Bool) (i : Impl) : Prop :=
   ∀ lpv, i.task = some lpv → ∀ hd tl, (hd :: tl) <:+ i.node.chain → lpv < hd.num →
-    justified i.ev (hd :: tl) hd = true
+    justified strict i.ev (hd :: tl) hd = true
 
-structure Sim (i : Impl) (sp : Spec) : Prop where
+structure Sim (strict : Bool) (i : Impl) (sp : Spec) : Prop where
   chain : sp.chain = i.node.chain
   ev : sp.ev = i.ev
   owed : sp.owed = []
   reorg : i.node.reorg = rangeOf sp.pending
   linked : Linked i.node.chain
   bound : ∀ x ∈ i.node.chain, x.num < U64
-  task : TaskInv i
+  task : TaskInv strict i
 
 theorem rangeOf_cons (hd : Blk) (p : List Blk) :
     rangeOf (hd :: p) = some (match rangeOf p with
@@ -126,8 +126,490 @@ theorem rangeOf_cons (hd : Blk) (p : List Blk) :
   | nil => rfl
   | cons a rest => simp [rangeOf, lastD]
 
-theorem Sim.init {c : Chain} (hl : Linked c) (hb : ∀ x ∈ c, x.num < U64) :
-    Sim (Impl.init c) (Spec.init c) :=
+theorem Sim.init {strict : Bool} {c : Chain} (hl : Linked c) (hb : ∀ x ∈ c, x.num < U64) :
+    Sim strict (Impl.init c) (Spec.init c) :=
   ⟨rfl, rfl, rfl, rfl, hl, hb, by intro lpv h; cases h⟩
+
+/-! ### facts about the transcribed functions -/
+
+/-- expected parent of the next block -/
+def expParent : Chain → Nat
+  | [] => 0
+  | hd :: _ => hd.hash
+
+theorem succession_def (c : Chain) (b : Blk) : succession c b =
+    if nextHeight c != b.num then .badNumber
+    else if b.parent != expParent c then .parentMismatch else .stored := by
+  cases c <;> rfl
+
+theorem succession_stored {c : Chain} {b : Blk} (h : succession c b = .stored) :
+    b.num = nextHeight c ∧ b.parent = expParent c := by
+  rw [succession_def] at h
+  by_cases h1 : nextHeight c = b.num
+  · by_cases h2 : b.parent = expParent c
+    · exact ⟨h1.symm, h2⟩
+    · simp [h1, h2] at h
+  · simp [h1] at h
+
+theorem succession_parentMismatch {c : Chain} {b : Blk} (h : succession c b = .parentMismatch) :
+    b.num = nextHeight c ∧ b.parent ≠ expParent c := by
+  rw [succession_def] at h
+  by_cases h1 : nextHeight c = b.num
+  · by_cases h2 : b.parent = expParent c
+    · simp [h1, h2] at h
+    · exact ⟨h1.symm, h2⟩
+  · simp [h1] at h
+
+theorem Linked.cons_of_succession {c : Chain} {b : Blk} (hl : Linked c)
+    (h : succession c b = .stored) : Linked (b :: c) := by
+  obtain ⟨hn, hp⟩ := succession_stored h
+  cases c with
+  | nil => exact ⟨hn, hp⟩
+  | cons hd tl => exact ⟨hn, hp, hl⟩
+
+theorem isReverting_some {cfg : Cfg} {c : Chain} {next : Nat} {l : Hdr} {lpv : Nat}
+    (h : isReverting cfg c next (some l) = some lpv) :
+    ∃ H T lh, c = H :: T ∧ H.num + 1 = next ∧ l.num ≤ H.num ∧ byNumber? c l.num = some lh ∧
+      lh.hash ≠ l.hash ∧
+      ((cfg.zeroGuard = true ∧ l.num = 0 ∧ lpv = 0) ∨
+       (¬ (cfg.zeroGuard = true ∧ l.num = 0) ∧ lpv = sub64 l.num 1)) := by
+  unfold isReverting at h
+  cases c with
+  | nil => simp at h
+  | cons H T =>
+    simp only [] at h
+    split at h
+    · cases h
+    · rename_i hnext
+      split at h
+      · cases h
+      · rename_i hle
+        have hle' : l.num ≤ H.num := by omega
+        have hcmp : (if l.num < H.num then l.num else H.num) = l.num := by
+          split <;> omega
+        rw [hcmp] at h
+        split at h
+        · cases h
+        · rename_i lh hlh
+          split at h
+          · cases h
+          · rename_i hne
+            refine ⟨H, T, lh, rfl, by simpa using hnext, hle', hlh, ?_, ?_⟩
+            · intro e; apply hne; simp [e]
+            · split at h
+              · rename_i hz
+                simp only [Bool.and_eq_true, beq_iff_eq] at hz
+                left; exact ⟨hz.1, hz.2, (Option.some.inj h).symm⟩
+              · rename_i hz
+                simp only [Bool.and_eq_true, beq_iff_eq] at hz
+                right; exact ⟨hz, (Option.some.inj h).symm⟩
+
+/-! ### the simulation -/
+
+def Impl.addBlock (i : Impl) (x : Nat × Blk) : Impl :=
+  { i with ev := { i.ev with blocks := x :: i.ev.blocks } }
+
+def Spec.addBlock (s : Spec) (x : Nat × Blk) : Spec :=
+  { s with ev := { s.ev with blocks := x :: s.ev.blocks } }
+
+theorem Sim.addBlock {strict : Bool} {i : Impl} {sp : Spec} (h : Sim strict i sp) (x : Nat × Blk) :
+    Sim strict (i.addBlock x) (sp.addBlock x) := by
+  refine ⟨h.chain, ?_, h.owed, h.reorg, h.linked, h.bound, ?_⟩
+  · simp [Impl.addBlock, Spec.addBlock, h.ev]
+  · intro lpv ht hd tl hs hlt
+    exact justified_mono_blocks _ _ _ _ _ (h.task lpv ht hd tl hs hlt)
+
+theorem suffix_eq_of_num {c : Chain} {H hd : Blk} {T tl : Chain} (hl : Linked c) (hc : c = H :: T)
+    (hs : (hd :: tl) <:+ c) (hn : H.num ≤ hd.num) : hd = H ∧ tl = T := by
+  subst hc
+  have h1 := Linked.head_num hl
+  have h2 := Linked.head_num (hl.suffix hs)
+  have h3 := hs.length_le
+  have : (hd :: tl).length = (H :: T).length := by simp at h3 ⊢; omega
+  have := hs.eq_of_length this
+  exact ⟨(List.cons.inj this).1, (List.cons.inj this).2⟩
+
+theorem Sim.step_deliver (cfg : Cfg) {strict : Bool} {i : Impl} {sp : Spec} (h : Sim strict i sp)
+    (hsc : strict = true → cfg.confirmHead = true) (req : Nat) (b : Blk)
+    (c : Bool) (hb : b.num < U64) :
+    ∃ sp', Spec.run strict sp (i.emit cfg (.deliver req b c)) = .ok sp' ∧
+      Sim strict (i.step cfg (.deliver req b c)).1 sp' := by
+  cases ht : i.task with
+  | some lpv =>
+    exact ⟨sp, by simp [Impl.emit, ht, Spec.run], by simpa [Impl.step, ht] using h⟩
+  | none =>
+    have h1 := h.addBlock (req, b)
+    have hserved : Spec.step strict sp (.served req b) = .ok (sp.addBlock (req, b)) := rfl
+    by_cases hok : b.ok = true
+    case neg =>
+      refine ⟨sp.addBlock (req, b), ?_, ?_⟩
+      · simp [Impl.emit, ht, Impl.step, hok, Spec.run, hserved]
+      · simpa [Impl.step, ht, hok, Impl.addBlock] using h1
+    case pos =>
+    by_cases hc : c = true
+    case pos =>
+      refine ⟨sp.addBlock (req, b), ?_, ?_⟩
+      · simp [Impl.emit, ht, Impl.step, hok, hc, Spec.run, hserved]
+      · simpa [Impl.step, ht, hok, hc, Impl.addBlock] using h1
+    case neg =>
+    cases hsucc : succession i.node.chain b with
+    | badNumber =>
+      refine ⟨sp.addBlock (req, b), ?_, ?_⟩
+      · simp [Impl.emit, ht, Impl.step, hok, hc, hsucc, Spec.run, hserved]
+      · simpa [Impl.step, ht, hok, hc, hsucc, Impl.addBlock] using h1
+    | parentMismatch =>
+      refine ⟨sp.addBlock (req, b), ?_, ?_⟩
+      · simp [Impl.emit, ht, Impl.step, hok, hc, hsucc, Spec.run, hserved]
+      · have hstep : (i.step cfg (.deliver req b c)).1 =
+            { i.addBlock (req, b) with task := some (mismatchLpv cfg b) } := by
+          simp [Impl.step, ht, hok, hc, hsucc, Impl.addBlock]
+        rw [hstep]
+        refine ⟨h1.chain, h1.ev, h1.owed, h1.reorg, h1.linked, h1.bound, ?_⟩
+        intro lpv hlpv hd tl hs hlt
+        simp only [Option.some.injEq] at hlpv
+        subst hlpv
+        obtain ⟨hn, hp⟩ := succession_parentMismatch hsucc
+        -- the chain is not empty (otherwise there is no suffix `hd :: tl`)
+        cases hch : i.node.chain with
+        | nil =>
+          have : (hd :: tl) <:+ ([] : Chain) := by simpa [Impl.addBlock, hch] using hs
+          simp at this
+        | cons H T =>
+          have hs' : (hd :: tl) <:+ i.node.chain := by simpa [Impl.addBlock] using hs
+          have hbn : b.num = H.num + 1 := by simpa [hch, nextHeight] using hn
+          have hHb := h.bound H (by simp [hch])
+          have hhd : hd.num ≤ H.num := by
+            have := Linked.head_num (h.linked.suffix hs')
+            have := Linked.head_num (hch ▸ h.linked)
+            have := hs'.length_le
+            simp [hch] at this; omega
+          cases hcf : cfg.confirmHead with
+          | true =>
+            -- the head itself is at lpv: nothing is reverted without asking
+            have : mismatchLpv cfg b = b.num - 1 := by
+              unfold mismatchLpv; simp only [hcf, if_true]; exact sub64_of_le (by omega) hb
+            rw [this] at hlt; omega
+          | false =>
+            have hstrict : strict = false := by
+              cases hst : strict with
+              | false => rfl
+              | true => rw [hsc hst] at hcf; cases hcf
+            have hm : mismatchLpv cfg b = sub64 b.num 2 := by
+              unfold mismatchLpv; simp [hcf]
+            rw [hm] at hlt
+            by_cases hb2 : 2 ≤ b.num
+            · have hlpv : sub64 b.num 2 = b.num - 2 := sub64_of_le hb2 hb
+              rw [hlpv] at hlt
+              obtain ⟨e1, e2⟩ := suffix_eq_of_num h.linked hch hs' (by omega)
+              subst e1; subst e2
+              unfold justified
+              have : ((i.addBlock (req, b)).ev.blocks.any
+                  (fun rb => rb.2.ok && rb.2.num == hd.num + 1 && rb.2.parent != hd.hash)) = true := by
+                have hp' : b.parent ≠ hd.hash := by simpa [hch, expParent] using hp
+                simp [Impl.addBlock, hok, hbn, hp']
+              simp [this, hstrict]
+            · have hlpv : sub64 b.num 2 = U64 - 1 := by
+                have : b.num = 1 := by omega
+                rw [this]; decide
+              rw [hlpv] at hlt
+              have := h.bound hd (hs'.subset (List.mem_cons_self ..))
+              unfold U64 at *; omega
+    | stored =>
+      have hl' := h.linked.cons_of_succession hsucc
+      have hst := Spec.step_stored_head strict (sp.addBlock (req, b)) req b sp.ev.blocks
+        (by simp [Spec.addBlock]) hok (by simpa [Spec.addBlock, h.chain] using hsucc)
+      have hemit : i.emit cfg (.deliver req b c) =
+          SEv.served req b :: SEv.obs (.stored b.num b.hash) ::
+            ((reorgObs i.node.reorg).map SEv.obs ++ [SEv.obs (.newHead b.num b.hash)]) := by
+        simp [Impl.emit, ht, Impl.step, hok, hc, hsucc, onStored]
+      have hstep : (i.step cfg (.deliver req b c)).1 =
+          { i.addBlock (req, b) with node := ⟨b :: i.node.chain, none⟩ } := by
+        simp [Impl.step, ht, hok, hc, hsucc, onStored, Impl.addBlock]
+      rw [hemit, hstep]
+      refine ⟨{ sp.addBlock (req, b) with chain := b :: sp.chain, pending := [], owed := [] }, ?_, ?_⟩
+      · simp only [Spec.run, hserved, hst]
+        have ho : (sp.addBlock (req, b)).owed = [] := h.owed
+        have hr : rangeOf (sp.addBlock (req, b)).pending = i.node.reorg := h.reorg.symm
+        rw [ho, hr]
+        cases hreo : i.node.reorg with
+        | none =>
+          simp only [reorgObs, List.map_nil, List.nil_append, Spec.run]
+          rw [Spec.step_newHead strict _ b.num b.hash [] (by simp [Spec.addBlock])]
+          simp [Spec.addBlock]
+        | some r =>
+          simp only [reorgObs, List.map_cons, List.map_nil, List.nil_append, List.cons_append, Spec.run]
+          rw [Spec.step_reorg strict _ r [Obs.newHead b.num b.hash] (by simp [Spec.addBlock])]
+          simp only []
+          rw [Spec.step_newHead strict _ b.num b.hash [] (by simp [Spec.addBlock])]
+          simp [Spec.addBlock]
+      · refine ⟨by simp [h.chain], by simp [Spec.addBlock, Impl.addBlock, h.ev], rfl, by simp [rangeOf], hl', ?_, ?_⟩
+        · intro x hx
+          rcases List.mem_cons.mp hx with rfl | hx
+          · exact hb
+          · exact h.bound x hx
+        · intro lpv hlpv
+          simp [Impl.addBlock, ht] at hlpv
+
+def Impl.addLatest (i : Impl) (x : Hdr) : Impl :=
+  { i with ev := { i.ev with latests := x :: i.ev.latests } }
+
+def Spec.addLatest (s : Spec) (x : Hdr) : Spec :=
+  { s with ev := { s.ev with latests := x :: s.ev.latests } }
+
+theorem Sim.addLatest {strict : Bool} {i : Impl} {sp : Spec} (h : Sim strict i sp) (x : Hdr) :
+    Sim strict (i.addLatest x) (sp.addLatest x) := by
+  refine ⟨h.chain, ?_, h.owed, h.reorg, h.linked, h.bound, ?_⟩
+  · simp [Impl.addLatest, Spec.addLatest, h.ev]
+  · intro lpv ht hd tl hs hlt
+    exact justified_mono_latests _ _ _ _ _ (h.task lpv ht hd tl hs hlt)
+
+theorem Sim.step_reorgDetected (cfg : Cfg) {strict : Bool} {i : Impl} {sp : Spec} (h : Sim strict i sp) (next : Nat)
+    (latest : Option Hdr) :
+    ∃ sp', Spec.run strict sp (i.emit cfg (.reorgDetected next latest)) = .ok sp' ∧
+      Sim strict (i.step cfg (.reorgDetected next latest)).1 sp' := by
+  cases ht : i.task with
+  | some lpv =>
+    exact ⟨sp, by simp [Impl.emit, ht, Spec.run], by simpa [Impl.step, ht] using h⟩
+  | none =>
+    cases latest with
+    | none =>
+      have hir : isReverting cfg i.node.chain next none = none := by
+        unfold isReverting; cases i.node.chain <;> simp
+      exact ⟨sp, by simp [Impl.emit, ht, Spec.run], by simpa [Impl.step, ht, hir] using h⟩
+    | some l =>
+      have h1 := h.addLatest l
+      have hlat : Spec.step strict sp (.latest l) = .ok (sp.addLatest l) := rfl
+      refine ⟨sp.addLatest l, by simp [Impl.emit, ht, Spec.run, hlat], ?_⟩
+      cases hir : isReverting cfg i.node.chain next (some l) with
+      | none => simpa [Impl.step, ht, hir, Impl.addLatest] using h1
+      | some lpv =>
+        have hstep : (i.step cfg (.reorgDetected next (some l))).1 =
+            { i.addLatest l with task := some lpv } := by
+          simp [Impl.step, ht, hir, Impl.addLatest]
+        rw [hstep]
+        refine ⟨h1.chain, h1.ev, h1.owed, h1.reorg, h1.linked, h1.bound, ?_⟩
+        intro lpv' hlpv hd tl hs hlt
+        simp only [Option.some.injEq] at hlpv
+        subst hlpv
+        obtain ⟨H, T, lh, hch, _, hle, hlh, hne, hcase⟩ := isReverting_some hir
+        have hs' : (hd :: tl) <:+ i.node.chain := by simpa [Impl.addLatest] using hs
+        have hHb := h.bound H (by simp [hch])
+        have hlnum : l.num ≤ hd.num := by
+          rcases hcase with ⟨_, hz, _⟩ | ⟨_, hl⟩
+          · omega
+          · by_cases h0 : l.num = 0
+            · omega
+            · have : sub64 l.num 1 = l.num - 1 := sub64_of_le (by omega) (by omega)
+              rw [hl, this] at hlt; omega
+        have hlook : byNumber? (hd :: tl) l.num = some lh := by
+          rw [← Linked.byNumber_suffix h.linked hs' (by
+            have := Linked.head_num (h.linked.suffix hs'); simp; omega)]
+          exact hlh
+        unfold justified
+        have : ((i.addLatest l).ev.latests.any (fun l' => decide (l'.num ≤ hd.num) &&
+            (match byNumber? (hd :: tl) l'.num with
+              | some lb => lb.hash != l'.hash | none => false))) = true := by
+          simp [Impl.addLatest, hlnum, hlook, hne]
+        simp only [Bool.or_eq_true]
+        exact Or.inr this
+
+theorem Sim.step_iter (cfg : Cfg) {strict : Bool} {i : Impl} {sp : Spec} (h : Sim strict i sp) (ans : Option Blk)
+    (revOk : Bool) (hok : i.evOK cfg (.iter ans revOk)) :
+    ∃ sp', Spec.run strict sp (i.emit cfg (.iter ans revOk)) = .ok sp' ∧
+      Sim strict (i.step cfg (.iter ans revOk)).1 sp' := by
+  obtain ⟨hrev, hnum⟩ := hok
+  subst hrev
+  cases ht : i.task with
+  | none =>
+    exact ⟨sp, by simp [Impl.emit, ht, Spec.run], by simpa [Impl.step, ht] using h⟩
+  | some lpv =>
+    cases hch : i.node.chain with
+    | nil =>
+      refine ⟨sp, by simp [Impl.emit, ht, hch, Spec.run], ?_⟩
+      have hstep : (i.step cfg (.iter ans true)).1 = { i with task := none } := by
+        simp [Impl.step, ht, hch]
+      rw [hstep]
+      exact ⟨h.chain, h.ev, h.owed, h.reorg, h.linked, h.bound, by intro l hl; cases hl⟩
+    | cons H T =>
+      -- the state after the (possible) ghost answer
+      let x : Option (Nat × Blk) := if H.num ≤ lpv then ans.map (fun rb => (H.num, rb)) else none
+      let i1 : Impl := match x with | some y => i.addBlock y | none => i
+      let sp1 : Spec := match x with | some y => sp.addBlock y | none => sp
+      have h1 : Sim strict i1 sp1 := by
+        cases hx : x with
+        | none => simpa [i1, sp1, hx] using h
+        | some y => simpa [i1, sp1, hx] using h.addBlock y
+      have hi1 : i1.node = i.node ∧ i1.task = i.task := by
+        cases hx : x <;> simp [i1, hx, Impl.addBlock]
+      have hghost : ∀ rest, Spec.run strict sp
+          ((if H.num ≤ lpv then (match ans with | some rb => [SEv.served H.num rb] | none => [])
+            else []) ++ rest) = Spec.run strict sp1 rest := by
+        intro rest
+        by_cases hle : H.num ≤ lpv
+        · cases ans with
+          | none => simp [sp1, x, hle]
+          | some rb => simp [sp1, x, hle, Spec.run, Spec.step, Spec.addBlock]
+        · simp [sp1, x, hle]
+      cases hit : revertIter cfg lpv H ans with
+      | brk =>
+        refine ⟨sp1, ?_, ?_⟩
+        · have : i.emit cfg (.iter ans true) =
+              (if H.num ≤ lpv then (match ans with | some rb => [SEv.served H.num rb] | none => [])
+                else []) ++ [] := by
+            simp [Impl.emit, ht, hch, Impl.step, hit]
+          rw [this, hghost]; rfl
+        · have hstep : (i.step cfg (.iter ans true)).1 = { i1 with task := none } := by
+            by_cases hle : H.num ≤ lpv
+            · cases ans <;> simp [Impl.step, ht, hch, hit, i1, x, hle, Impl.addBlock]
+            · simp [Impl.step, ht, hch, hit, i1, x, hle]
+          rw [hstep]
+          exact ⟨h1.chain, h1.ev, h1.owed, h1.reorg, h1.linked, h1.bound, by intro l hl; cases hl⟩
+      | revert cont =>
+        -- the head is justified
+        have hj : justified strict sp1.ev sp1.chain H = true := by
+          rw [h1.ev, h1.chain, hi1.1, hch]
+          by_cases hle : H.num ≤ lpv
+          · -- the answer was consulted: it differs and carries the right number
+            unfold revertIter at hit
+            simp only [hle, if_true] at hit
+            cases ans with
+            | none => simp at hit
+            | some rb =>
+              simp only [] at hit
+              have hrbnum : rb.num = H.num := by
+                cases hnc : cfg.numCheck with
+                | false => exact hnum hnc lpv H T rb ht hch hle rfl
+                | true =>
+                  by_cases e : rb.num = H.num
+                  · exact e
+                  · simp [hnc, e] at hit
+              have hne : rb.hash ≠ H.hash := by
+                intro e; simp [e] at hit
+              unfold justified
+              have : (i1.ev.blocks.any
+                  (fun y => y.1 == H.num && y.2.num == H.num && y.2.hash != H.hash)) = true := by
+                simp [i1, x, hle, Impl.addBlock, hrbnum, hne]
+              simp [this]
+          · have := h1.task lpv (by rw [hi1.2, ht]) H T (by rw [hi1.1, hch]; exact List.suffix_refl _)
+              (by omega)
+            exact this
+        have hemit : i.emit cfg (.iter ans true) =
+            (if H.num ≤ lpv then (match ans with | some rb => [SEv.served H.num rb] | none => [])
+              else []) ++ [SEv.obs (.reverted H.num H.hash)] := by
+          simp [Impl.emit, ht, hch, Impl.step, hit, revertHead]
+        have hstep : (i.step cfg (.iter ans true)).1 =
+            { i1 with node := (revertHead i.node H true).1, task := if cont then some lpv else none } := by
+          by_cases hle : H.num ≤ lpv
+          · cases ans <;> simp [Impl.step, ht, hch, hit, i1, x, hle, Impl.addBlock]
+          · simp [Impl.step, ht, hch, hit, i1, x, hle]
+        rw [hemit, hghost, hstep]
+        have hc1 : sp1.chain = H :: T := by rw [h1.chain, hi1.1, hch]
+        refine ⟨{ sp1 with chain := T, pending := H :: sp1.pending }, ?_, ?_⟩
+        · simp only [Spec.run]
+          rw [Spec.step_reverted strict sp1 H T hc1 hj]
+        · refine ⟨by simp [revertHead, hch], h1.ev, h1.owed, ?_, ?_, ?_, ?_⟩
+          · have hr : i.node.reorg = rangeOf sp1.pending := by rw [← hi1.1]; exact h1.reorg
+            simp only [revertHead]
+            rw [rangeOf_cons, ← hr]
+            generalize i.node.reorg = q
+            cases q <;> rfl
+          · simp only [revertHead, if_true, hch, List.tail_cons]
+            exact (hch ▸ h.linked).tail
+          · intro y hy
+            simp only [revertHead, if_true, hch, List.tail_cons] at hy
+            exact h.bound y (by rw [hch]; exact List.mem_cons_of_mem _ hy)
+          · intro lpv' hl' hd tl hs hlt
+            have hl'' : lpv' = lpv := by
+              cases cont <;> simp at hl'
+              exact hl'.symm
+            subst hl''
+            simp only [revertHead, if_true, hch, List.tail_cons] at hs
+            exact h1.task lpv' (by rw [hi1.2, ht]) hd tl
+              (by rw [hi1.1, hch]; exact hs.trans (List.suffix_cons _ _)) hlt
+
+theorem Sim.step (cfg : Cfg) {strict : Bool} {i : Impl} {sp : Spec} (h : Sim strict i sp)
+    (hsc : strict = true → cfg.confirmHead = true) (e : Ev) (hok : i.evOK cfg e) :
+    ∃ sp', Spec.run strict sp (i.emit cfg e) = .ok sp' ∧ Sim strict (i.step cfg e).1 sp' := by
+  cases e with
+  | deliver req b c => exact h.step_deliver cfg hsc req b c hok
+  | reorgDetected next latest => exact h.step_reorgDetected cfg next latest
+  | iter ans revOk => exact h.step_iter cfg ans revOk hok
+
+theorem Impl.run_cons (cfg : Cfg) (i : Impl) (e : Ev) (es : List Ev) :
+    Impl.run cfg i (e :: es) =
+      ((Impl.run cfg (i.step cfg e).1 es).1, (i.step cfg e).2 ++ (Impl.run cfg (i.step cfg e).1 es).2) := rfl
+
+theorem Sim.run (cfg : Cfg) {strict : Bool} (hsc : strict = true → cfg.confirmHead = true) :
+    ∀ (es : List Ev) {i : Impl} {sp : Spec}, Sim strict i sp → i.runOK cfg es →
+    ∃ sp', Spec.run strict sp (i.trace cfg es) = .ok sp' ∧ Sim strict (Impl.run cfg i es).1 sp'
+  | [], i, sp, h, _ => ⟨sp, rfl, h⟩
+  | e :: es, i, sp, h, hok => by
+    obtain ⟨sp1, hr1, hs1⟩ := h.step cfg hsc e hok.1
+    obtain ⟨sp2, hr2, hs2⟩ := Sim.run cfg hsc es hs1 hok.2
+    refine ⟨sp2, ?_, ?_⟩
+    · simp only [Impl.trace]
+      rw [Spec.run_append, hr1]; exact hr2
+    · rw [Impl.run_cons]; exact hs2
+
+/-! ### what acceptance means -/
+
+theorem Spec.stored_inv {strict : Bool} {s s' : Spec} {n h : Nat}
+    (hst : Spec.step strict s (.obs (.stored n h)) = .ok s') :
+    ∃ req b, (req, b) ∈ s.ev.blocks ∧ b.ok = true ∧ b.num = n ∧ b.hash = h ∧
+      succession s.chain b = .stored ∧ s'.chain = b :: s.chain ∧ s'.ev = s.ev := by
+  simp only [Spec.step] at hst
+  split at hst
+  · split at hst <;> cases hst
+  · split at hst
+    · cases hst
+    · rename_i rb hfind
+      have hm := List.mem_of_find?_eq_some hfind
+      have hp := List.find?_some hfind
+      simp only [Bool.and_eq_true, beq_iff_eq] at hp
+      cases hst
+      exact ⟨rb.1, rb.2, hm, hp.1.2, hp.1.1.1, hp.1.1.2, hp.2, rfl, rfl⟩
+
+theorem Spec.reverted_inv {strict : Bool} {s s' : Spec} {n h : Nat}
+    (hst : Spec.step strict s (.obs (.reverted n h)) = .ok s') :
+    ∃ hd tl, s.chain = hd :: tl ∧ hd.num = n ∧ hd.hash = h ∧ justified strict s.ev s.chain hd = true ∧
+      s' = { s with chain := tl, pending := hd :: s.pending } := by
+  simp only [Spec.step] at hst
+  split at hst
+  · cases hst
+  · rename_i hd tl hc
+    split at hst
+    · cases hst
+    · rename_i hne
+      split at hst
+      · cases hst
+      · rename_i hj
+        cases hst
+        simp only [Bool.or_eq_true, bne_iff_ne, ne_eq, not_or, Decidable.not_not] at hne
+        simp only [Bool.not_eq_true', Bool.not_eq_false] at hj
+        exact ⟨hd, tl, hc, hne.1, hne.2, hc ▸ hj, rfl⟩
+
+/-- Any accepted step changes the chain by one store, by one justified revert, or not at all. -/
+theorem Spec.step_chain {strict : Bool} {s s' : Spec} {e : SEv} (hst : Spec.step strict s e = .ok s') :
+    s'.chain = s.chain ∨
+    (∃ n h, e = .obs (.stored n h)) ∨
+    (∃ n h, e = .obs (.reverted n h)) := by
+  cases e with
+  | served r b => left; simp only [Spec.step] at hst; cases hst; rfl
+  | latest l => left; simp only [Spec.step] at hst; cases hst; rfl
+  | obs o =>
+    cases o with
+    | stored n h => right; left; exact ⟨n, h, rfl⟩
+    | reverted n h => right; right; exact ⟨n, h, rfl⟩
+    | revertFailed n h => simp [Spec.step] at hst
+    | newHead n h =>
+      left; simp only [Spec.step] at hst
+      split at hst
+      · cases hst
+      · split at hst <;> cases hst; rfl
+    | reorg r =>
+      left; simp only [Spec.step] at hst
+      split at hst
+      · cases hst
+      · split at hst <;> cases hst; rfl
 
 end Juno.C06
